@@ -183,7 +183,7 @@ func TestErrorsAtFirstOffendingToken(t *testing.T) {
 	rec.Rule(rule + ruleMore)
 	rec.Assume("texts stay below one buffer half")
 	opts := gen.SpecOpts{MaxRules: 3, Depth: 3, Literals: []string{"a", "b", `\"`}, Tokens: []string{"TK", "NUM"}, Directives: 2, RuleHandles: true, DupRules: true, EmptyRules: true}
-	rec.Check(t, 5000, 200000, func(t *rapid.T) {
+	rec.Check(t, 12000, 200000, func(t *rapid.T) {
 		m := gen.Spec(t, opts)
 		toks := m.Tokens()
 		mode := rapid.SampledFrom([]string{"insert", "delete", "replace", "truncate", "stray", "stray"}).Draw(t, "mode")
